@@ -59,14 +59,14 @@ Definition C12_accessor_moves_nothing_statement : Prop := forall s a s',
 
 (* REFUTED by the code as it is: Stream.vle of a solid stream rewrites 's' to 'l' (known finding
    C12:vle-relabels-solid; .lle and .sle relabel likewise, props/C12.py WITNESSES) *)
-Definition ex_solid : st := init_single 3 Ps [1; 0; 2] 300 101325.
+Definition ex_solid : st := init_single 3 [16; 32; 8] Ps [1; 0; 2] 300 101325.
 Theorem C12_accessor_moves_nothing_refuted : ~ C12_accessor_moves_nothing_statement.
 Proof.
   intros H.
   assert (E : exists s', step ex_solid (OAcc AVle) = Ok s' /\ fl s' Ps 0 == 0).
   { eexists. split; [vm_compute; reflexivity|vm_compute; reflexivity]. }
   destruct E as (s' & E & Z).
-  assert (W : wf ex_solid) by (apply (init_single_good 3 Ps [1; 0; 2] 300 101325 eq_refl)).
+  assert (W : wf ex_solid) by (apply (init_single_good 3 [16; 32; 8] Ps [1; 0; 2] 300 101325 eq_refl)).
   destruct (H ex_solid AVle s' W E) as (_ & K & _).
   specialize (K Ps 0%nat). rewrite Z in K. vm_compute in K. discriminate.
 Qed.
@@ -89,19 +89,19 @@ Print Assumptions C12_accessor_placement_partial.
 
 (* the other relabelling call sites and the raise, as the model (= the code) has them *)
 Example C12_ex_sle_S_into_l :
-  match step (init_single 3 PS [1; 0; 2] 300 101325) (OAcc ASle) with
+  match step (init_single 3 [16; 32; 8] PS [1; 0; 2] 300 101325) (OAcc ASle) with
   | Ok s => phases_of s = [Pl; Ps] /\ flow s Pl = [1; 0; 2] /\ flow s Ps = [0; 0; 0]
   | Err _ => False
   end.
 Proof. vm_compute. repeat split; reflexivity. Qed.
 Example C12_ex_lle_gas_into_l :
-  match step (init_single 3 Pg [1; 0; 2] 300 101325) (OAcc ALle) with
+  match step (init_single 3 [16; 32; 8] Pg [1; 0; 2] 300 101325) (OAcc ALle) with
   | Ok s => phases_of s = [PL; Pl] /\ flow s Pl = [1; 0; 2]
   | Err _ => False
   end.
 Proof. vm_compute. repeat split; reflexivity. Qed.
 Example C12_ex_vle_S_raises :
-  step (init_single 3 PS [1; 0; 2] 300 101325) (OAcc AVle) = Err EUndefPhase.
+  step (init_single 3 [16; 32; 8] PS [1; 0; 2] 300 101325) (OAcc AVle) = Err EUndefPhase.
 Proof. vm_compute. reflexivity. Qed.
 
 (* ---- live views ---- *)
@@ -131,6 +131,28 @@ Theorem C12_write_through_parent : forall s l j x s',
               cellv (heap s') (vcell v) = flow s' q.
 Proof. exact write_parent_visible. Qed.
 Print Assumptions C12_write_through_parent.
+
+(* the views are live on the mass basis too: the mass indexer cached inside a view wraps the row the view
+   reads now, along every history *)
+Theorem C12_views_live_mass : forall ops s s', mass_inv s -> run s ops = Ok s' -> mass_inv s'.
+Proof. exact run_mass. Qed.
+Print Assumptions C12_views_live_mass.
+
+Theorem C12_view_mass_reads_parent : forall s i v c,
+  live_inv s -> mass_inv s -> nth_error (views s) i = Some v -> vin v = true -> vmass v = Some c ->
+  exists q, resolve (pset_now s) (vlabel v) = Some q /\
+            vmul (cellv (heap s) c) (mws s) = vmul (flow s q) (mws s).
+Proof. exact view_mass_reads. Qed.
+Print Assumptions C12_view_mass_reads_parent.
+
+Theorem C12_mass_write_through_view : forall s i j x s' v,
+  wf s -> live_inv s -> mass_inv s -> nth_error (views s) i = Some v -> vin v = true ->
+  step s (OViewMassWrite i j x) = Ok s' ->
+  exists q, resolve (pset_now s) (vlabel v) = Some q /\
+    flow s' q = upd (flow s q) j (x / nthq (mws s) j) /\ (forall p, p <> q -> flow s' p = flow s p) /\
+    live_inv s' /\ mass_inv s'.
+Proof. exact view_mass_write_visible. Qed.
+Print Assumptions C12_mass_write_through_view.
 
 (* a sub-stream stays the parent's cached (hence live) sub-stream across EVERY operation unless the stream
    collapsed to a single phase or no longer has a row for its label *)
@@ -170,7 +192,7 @@ Proof. exact restore_total. Qed.
 Print Assumptions C12_restore_never_raises.
 
 (* ---- non-vacuity: the hypotheses are met by reachable states, and the histories do return ---- *)
-Definition ex0 : st := init_single 3 Pl [1; 0; 2] 300 101325.
+Definition ex0 : st := init_single 3 [16; 32; 8] Pl [1; 0; 2] 300 101325.
 Example C12_ex_good : good ex0 /\ live_inv ex0.
 Proof. apply init_single_good. reflexivity. Qed.
 
@@ -194,6 +216,16 @@ Example C12_ex_view_live :
   | Err _ => False
   end.
 Proof. vm_compute. split; reflexivity. Qed.
+
+(* mass cache filled BEFORE the phase change, mass-basis write through the old view AFTER it *)
+Example C12_ex_view_live_mass :
+  mass_inv ex0 /\
+  match run ex0 [OAcc AVle; OView Pl; OViewMassTouch 0; OSetPhases [Ps; Pg; Pl] false; OViewMassWrite 0 1 64] with
+  | Ok s => nthq (flow s Pl) 1 == 2 /\ phases_of s = [Pg; Pl; Ps] /\
+            map vmass (views s) = map (fun v => Some (vcell v)) (views s) /\ length (views s) = 1%nat
+  | Err _ => False
+  end.
+Proof. split; [intros v []|vm_compute; repeat split; reflexivity]. Qed.
 
 Example C12_ex_covers : covers ex0 (pset_of [PL; Pg]) /\ ~ covers ex0 (pset_of [Pg; Ps]).
 Proof.
